@@ -7,6 +7,7 @@ import (
 	"os"
 	"path/filepath"
 	"reflect"
+	"regexp"
 	"strings"
 	"sync"
 	"testing"
@@ -471,6 +472,9 @@ var specC18Total = Register(&Spec[ParserInput]{
 
 // ------------------------------------------------------------------ the local time zone is not input
 
+// trailerOffset finds " +hhmm" / " -hhmm" at the end of a line.
+var trailerOffset = regexp.MustCompile(`(?m) [+-][0-9]{4}$`)
+
 // ZoneCase: a changelog parsed with the process's local time zone set to different zones.
 type ZoneCase struct {
 	EP    string `json:"ep"`
@@ -479,7 +483,7 @@ type ZoneCase struct {
 
 var specC18Zone = Register(&Spec[ZoneCase]{
 	Prop: "C18", Name: "localzone",
-	Rule: "changelog.Parse / ParseOne on inputs of the C18/total generator (valid, mutated, soups ...): the input is parsed as the process stands, then once for every zone offset found in the result (and for +00:00, +01:00 and -05:30) with time.Local set to a fixed zone of that offset - time.Parse hands out Local instead of a zone made from the written offset when the two agree. Oracle: every parse gives a deeply equal result, the same error-ness and text, and the same When.String() for every entry: the value is a function of the bytes, not of the zone the process runs in. Non-trivial: the first parse returned at least one entry; distinct by (entry point, bytes).",
+	Rule: "changelog.Parse / ParseOne on inputs of the C18/total generator (valid, mutated, soups ...; in a quarter the numeric offset of a trailer replaced by a zone NAME - UTC, GMT, PST, CET, or XST, the name of the zone the check installs): the input is parsed as the process stands, then once for every zone offset found in the result (and for +00:00, +01:00 and -05:30) with time.Local set to a fixed zone of that offset - time.Parse hands out Local instead of a zone made from the written offset when the two agree. Oracle: every parse gives a deeply equal result, the same error-ness and text, and the same When.String() for every entry: the value is a function of the bytes, not of the zone the process runs in. Non-trivial: the first parse returned at least one entry; distinct by (entry point, bytes).",
 	Check: func(c ZoneCase, r *Recorder) error {
 		f := entryPoints[c.EP]
 		if f == nil || !strings.HasPrefix(c.EP, "changelog.") {
@@ -552,6 +556,15 @@ func TestC18_LocalZone(t *testing.T) {
 		in := genParserInput(t, ep)
 		if len(in.Input) > 4096 {
 			in.Input = in.Input[:4096]
+		}
+		if rapid.IntRange(0, 3).Draw(t, "zoneName") == 0 {
+			// the zone spelled by name instead of by offset (old entries have "PST", "CET", "UTC"):
+			// whatever is made of it, it is made of the bytes - "XST" is the name the check gives
+			// the local zone it sets
+			name := rapid.SampledFrom([]string{"XST", "XST", "UTC", "GMT", "PST", "CET", "EST", "Z", "+01", "(CET)", "+0100 (CET)"}).Draw(t, "zname")
+			if m := trailerOffset.FindIndex(in.Input); m != nil {
+				in.Input = append(append(append([]byte{}, in.Input[:m[0]+1]...), []byte(name)...), in.Input[m[1]:]...)
+			}
 		}
 		return ZoneCase{EP: ep, Input: in.Input}
 	}, 4000, 30000)
